@@ -237,7 +237,13 @@ def gen_cases(run):
             temp=None if tune else r.choice([None, 0.1, 0.7]), space=[0.0, 0.05, 0.3, 1.5] if tune else None,
             set_temp_after=r.choice([None, None, None, 0.2]), keep=r.choice([0.99, 0.8, 1.0]), cap=r.choice([12, 2, 1]),
             outputs=r.randint(1, 2), classes=r.choice([2, 3, 4]), pickle=r.random() < 0.5, dseed=r.randint(0, 10 ** 6)))
-    # a positive temperature configured in the constructor while tuning selects hard routing (None), and the converse
+    # the remaining classification metrics (AUC, F1) as tuning metric: leaf settings that fit() derives from the metric belong to
+    # the prediction view and must come back from a load (AUC needs both classes in a leaf's validation set: single leaves)
+    for k, metric in enumerate(['auc', 'f1', 'auc', 'f1']):
+        cases.append(dict(family='fitted-models', task='class', kernel=list(KERNELS[k % len(KERNELS)]), q=1.0, diag=bool(k % 2), adaptive=False,
+                          bandwidth=5.0, iters=1, L=1000, n=[90, 140][k // 2], d=3, method='random', trees=1 + k // 2, f=0.0,
+                          mode=['zero_one', 'prevalence'][k // 2], metric=metric, tune=False, temp=None, space=None, set_temp_after=None,
+                          keep=0.99, cap=12, outputs=1, classes=2, pickle=bool(k % 2), dseed=r.randint(0, 10 ** 6)))
     for k, (space, temp) in enumerate([([0.0], 0.3), ([0.0, 0.3], 0.3), ([0.4], None)]):
         cases.append(dict(family='fitted-models', task=['reg', 'class', 'reg'][k], kernel=list(KERNELS[k]), q=1.0, diag=False, adaptive=k == 1,
                           bandwidth=5.0, iters=1, L=24, n=90, d=3, method='random', trees=1 + (k % 2), f=0.0, mode='prevalence',
